@@ -149,8 +149,68 @@ def run_impl_polled(k, n, script, polls):
     return seen, [v[1] for v in rs.value], rs.n
 
 
+class _Echo:
+    """an observation whose disposal is itself observed: when the last reference goes, a note about it is fed to the same reservoir (a frame
+    whose finaliser reports to the statistics) — possibly in the middle of the accumulate() call that evicts it"""
+    live = True
+
+    def __init__(self, i, rs, calls):
+        self.i, self.rs, self.calls = i, rs, calls
+
+    def __del__(self):
+        if _Echo.live:
+            self.calls.append(('echo', self.i))
+            self.rs.accumulate(('echo', self.i))
+
+
+def run_impl_echo(k, n, script):
+    import gc
+    import generatorpipeline.accumulators as A
+    rs = A.ReservoirSampling(length=k)
+    src = Scripted(script)
+    old = A.random
+    A.random = src
+    calls = []
+    _Echo.live = True
+    gc.disable()
+    try:
+        for i in range(n):
+            calls.append(('obs', i))
+            rs.accumulate(_Echo(i, rs, calls))
+        _Echo.live = False
+        return len(calls), rs.n, len(rs.value), list(src.ranges)
+    except Exception as e:  # noqa
+        _Echo.live = False
+        return len(calls), -1, '!%s: %s' % (type(e).__name__, e), list(src.ranges)
+    finally:
+        _Echo.live = False
+        A.random = old
+        gc.enable()
+
+
+def echo_cases(ctx):
+    """every accumulate() call is an observation — also one made from the finaliser of an element the reservoir is just evicting: n counts it and
+    its random choice is over 1..(its own number)"""
+    rng = ctx.rng
+    for _ in range(ctx.scale(20, 200)):
+        k = rng.choice([1, 1, 2, 3])
+        n = rng.choice([3, 5, 9, 20])
+        script = [rng.randrange(0, 3 * k) for _ in range(4 * n)]     # small draws: evictions (and so re-entrant observations) are frequent
+        case = dict(echo_observations=True, k=k, n=n, draws=script)
+        calls, cnt, held, ranges = run_impl_echo(k, n, script)
+        ctx.case(('echo', k, n, tuple(script)), True, sample=case if n <= 5 else None)
+        ctx.count('echo_runs')
+        want_ranges = [(1, t) for t in range(k + 1, calls + 1)]
+        if cnt == -1:
+            ctx.fail('reservoir-raises', 'with observations that report their own disposal to the reservoir: %s' % held, case)
+        elif cnt != calls or held != min(calls, k) or [tuple(r) for r in ranges] != want_ranges:
+            ctx.fail('reservoir-reentrant-observation', '%d accumulate() calls (some made while an element was being evicted): n=%s, %s held, random requests %s; '
+                     'every call is one observation: n=%d and requests %s' % (calls, cnt, held, ranges[:8], calls, want_ranges[:8]), case)
+
+
 def check(ctx):
     rng = ctx.rng
+    echo_cases(ctx)
     # (a) random scripts vs the model
     lines, metas = [], []
     for _ in range(ctx.scale(300, 3000)):
@@ -163,6 +223,22 @@ def check(ctx):
         lines.append('res.run %d %d | %s' % (k, n, ' '.join(map(str, js))))
         lines.append('res.ranges %d %d' % (k, n))
         metas.append((k, n, draws, res, cnt, ranges))
+    # one long stream (beyond 2**16 observations): Algorithm R as the property words it, with the scripted draws
+    for (k, n) in [(2, 66000)] + ([(1, 140000), (5, 70000)] if not ctx.quick else []):
+        draws = [rng.randrange(t) for t in range(k + 1, n + 1)]
+        res, cnt, ranges = run_impl(k, n, draws)
+        ref = list(range(min(k, n)))
+        for t, u in zip(range(k + 1, n + 1), draws):
+            if u + 1 <= k:
+                ref[u] = t - 1
+        want_ranges = [(1, t) for t in range(k + 1, n + 1)]
+        case = dict(k=k, n=n, draws='%d scripted draws from the run\'s seed' % len(draws))
+        ctx.case(('long', k, n), True, sample=case)
+        ctx.count('long_streams')
+        if (res, cnt) != (ref, n) or ranges != want_ranges:
+            late = sum(1 for p in res if isinstance(p, int) and p >= 65536)
+            ctx.fail('reservoir-long-stream-wrong', 'after %d observations (k=%d) the reservoir holds positions %s (n=%s, %d random requests, %d retained '
+                     'positions beyond 65536); Algorithm R with the same draws holds %s' % (n, k, res[:8], cnt, len(ranges), late, ref[:8]), case)
     mout = core.run_driver(lines)
     for idx, (k, n, draws, res, cnt, ranges) in enumerate(metas):
         case = dict(k=k, n=n, draws=draws)
@@ -279,6 +355,9 @@ def check(ctx):
 
 def replay(ctx, data):
     case = data['case']
+    if case.get('echo_observations'):
+        echo_cases(ctx)
+        return
     if case.get('exhaustive') or case.get('statistical'):
         check(ctx)
         return
